@@ -56,6 +56,7 @@ type Engine struct {
 	localsBase     map[string][]localEntry // claims/locals.json (locals.go)
 	renamesUsed    map[string]map[string]string
 	rangeKeyBase   map[string]map[int]string // claims/rangekeys.json
+	loopsBase      map[string][]string       // claims/loops.json
 }
 
 func loadEngine(repo string) (*Engine, error) {
@@ -380,6 +381,9 @@ func (e *Engine) newCtx(t *Target) *FnCtx {
 		c.curLocals[l.Name] = true
 	}
 	c.baseRangeKey = e.rangeKeyBase[t.Key]
+	if bl, ok := e.loopsBase[t.Key]; ok {
+		c.loopRemap = loopMap(bl, loopsOf(t))
+	}
 	if base, ok := e.localsBase[t.Key]; ok {
 		if m := renameMap(base, localsOf(t)); len(m) > 0 {
 			c.renames = m
